@@ -10,13 +10,6 @@ import (
 	"time"
 )
 
-// tryReplay attempts to turn a solver model into a failing execution of the real code.
-// Returns true iff a failing input was reproduced on the real code.
-func tryReplay(E *Engine, o *Obligation, rep map[string]interface{}, root, scratch string) bool {
-	rep["replay_note"] = "no automatic concretisation for this obligation kind; model attached"
-	return false
-}
-
 // runBounded runs a bounded stand-in command (labelled bounded, never counted as proved).
 func runBounded(bc BoundedCfg, prop, root, tier string, seed int, replayDir, repo string) map[string]interface{} {
 	t0 := time.Now()
